@@ -35,6 +35,7 @@ type c05Env struct {
 	rsp                      *Responder
 	ca, sib, stranger, inter *CA
 	delegEKU, delegNoEKU     *CA
+	delegAbsentEKU, delegAny *CA
 	sibDeleg                 *CA
 	interDeleg               *CA
 	val                      *Validator
@@ -68,6 +69,8 @@ func runC05(r *Run) {
 	e.inter = NewCA(CAOpts{CN: "C05 Intermediate", Parent: e.ca})
 	e.delegEKU = NewCA(CAOpts{CN: "C05 responder", EC: true, Parent: e.ca, NotCA: true, ExtKeyUsage: []x509.ExtKeyUsage{x509.ExtKeyUsageOCSPSigning}})
 	e.delegNoEKU = NewCA(CAOpts{CN: "C05 responder no eku", EC: true, Parent: e.ca, NotCA: true, ExtKeyUsage: []x509.ExtKeyUsage{x509.ExtKeyUsageServerAuth}})
+	e.delegAbsentEKU = NewCA(CAOpts{CN: "C05 responder eku absent", EC: true, Parent: e.ca, NotCA: true})
+	e.delegAny = NewCA(CAOpts{CN: "C05 responder any eku", EC: true, Parent: e.ca, NotCA: true, ExtKeyUsage: []x509.ExtKeyUsage{x509.ExtKeyUsageAny}})
 	e.sibDeleg = NewCA(CAOpts{CN: "C05 sibling responder", EC: true, Parent: e.sib, NotCA: true, ExtKeyUsage: []x509.ExtKeyUsage{x509.ExtKeyUsageOCSPSigning}})
 	e.interDeleg = NewCA(CAOpts{CN: "C05 inter responder", EC: true, Parent: e.inter, NotCA: true, ExtKeyUsage: []x509.ExtKeyUsage{x509.ExtKeyUsageOCSPSigning}})
 	var err error
@@ -75,7 +78,7 @@ func runC05(r *Run) {
 	must(err)
 	defer e.val.Close()
 
-	signers := []string{"issuer", "issuer+self", "deleg", "deleg-noembed", "deleg-noeku", "client", "client+embed", "stranger", "stranger+embed",
+	signers := []string{"issuer", "issuer+self", "deleg", "deleg-noembed", "deleg-noeku", "deleg-absent-eku", "deleg-any-eku", "client", "client+embed", "stranger", "stranger+embed",
 		"sibling", "sibling-deleg", "deleg-cert-stranger-sig", "deleg+issuer-embedded-second"}
 	var cases []c05Case
 	for _, iss := range []string{"root", "inter", "leafski"} {
@@ -169,6 +172,10 @@ func (e *c05Env) signer(name string, leaf *Leaf, issuer, deleg *CA) c05Signer {
 		return c05Signer{name, deleg.Cert, deleg.Key, nil, false}
 	case "deleg-noeku":
 		return c05Signer{name, e.delegNoEKU.Cert, e.delegNoEKU.Key, []*x509.Certificate{e.delegNoEKU.Cert}, false}
+	case "deleg-absent-eku":
+		return c05Signer{name, e.delegAbsentEKU.Cert, e.delegAbsentEKU.Key, []*x509.Certificate{e.delegAbsentEKU.Cert}, false}
+	case "deleg-any-eku":
+		return c05Signer{name, e.delegAny.Cert, e.delegAny.Key, []*x509.Certificate{e.delegAny.Cert}, false}
 	case "client":
 		return c05Signer{name, leaf.Cert, leaf.Key, nil, false}
 	case "client+embed":
@@ -188,7 +195,7 @@ func (e *c05Env) signer(name string, leaf *Leaf, issuer, deleg *CA) c05Signer {
 }
 
 func (e *c05Env) known(leaf *Leaf) []*x509.Certificate {
-	return []*x509.Certificate{e.ca.Cert, e.inter.Cert, e.sib.Cert, e.stranger.Cert, e.delegEKU.Cert, e.delegNoEKU.Cert, e.sibDeleg.Cert, e.interDeleg.Cert, leaf.Cert}
+	return []*x509.Certificate{e.ca.Cert, e.inter.Cert, e.sib.Cert, e.stranger.Cert, e.delegEKU.Cert, e.delegNoEKU.Cert, e.sibDeleg.Cert, e.interDeleg.Cert, leaf.Cert, e.delegAbsentEKU.Cert, e.delegAny.Cert}
 }
 
 func (e *c05Env) build(c c05Case, leaf *Leaf, issuer, deleg *CA) (body []byte, sg c05Signer, wellFormed, hasThis bool, wantStatus string, nu time.Time) {
